@@ -1,6 +1,9 @@
 package main
 
-import "fmt"
+import (
+	"fmt"
+	"strings"
+)
 
 // C04: "results depending on ... redefined functions ... are never served from the cache".  A caller that was
 // called (and remembered) before one of the functions it depends on changes: redefined at top level, by another
@@ -53,6 +56,26 @@ func famRedef(r *rng) []string {
 	res = append(res, "println("+call+")", "println("+call+")")
 	if r.intn(2) == 0 { // and back to the first definition
 		res = append(res, defG(c1), "println("+call+")")
+	}
+	if r.intn(3) == 0 { // a call returning a closure over its own (mutable) environment, alone or inside a container
+		n := 1 + r.intn(5)
+		mk := pickS(r,
+			"mk = func(n) { () => { n = n + 1; n } }",
+			"mk = func(n) { [() => { n = n + 1; n }] }",
+			"mk = func(n) { {\"next\": () => { n = n + 1; n }} }",
+			"func mk(n) { c = 0; func() { c = c + n; c } }",
+			"mk = func(n) { g2 = () => n * 2; g2 }")
+		get := func(v string) string {
+			switch {
+			case strings.Contains(mk, "[()"):
+				return v + "[0]()"
+			case strings.Contains(mk, "next"):
+				return v + ".next()"
+			}
+			return v + "()"
+		}
+		res = append(res, mk, fmt.Sprintf("c1 = mk(%d)", n), "println("+get("c1")+")", "println("+get("c1")+")",
+			fmt.Sprintf("c2 = mk(%d)", n), "println("+get("c2")+")", "println("+get("c1")+")")
 	}
 	if r.intn(4) == 0 { // a function drawing into an image (extension state) twice with the same arguments
 		res = append(res, `image.new("a", 8, 8)`,
